@@ -114,8 +114,14 @@ func VerifC19_DestroyReuse() {
 		vpAssert(h[w].Put(ctx, k, []byte{byte('0' + r)}, nil) == nil, "put-through-reused-handle")
 		d := vpChoose("destroyer", 2)
 		vpAssert(h[d].Destroy(ctx) == nil, "destroy-succeeds")
+		// reads through the non-owner pass through a command handler on the owner (which may re-register the DMap
+		// there), reads through the owner do not: whether the non-owner reads between rounds is part of the script
+		remoteReads := r == rounds-1 || vpChoose("remotereads", 2) == 1
 		for m := 0; m < 2; m++ {
 			for _, kk := range vpMapKeys {
+				if m == 1 && !remoteReads {
+					break
+				}
 				_, gerr := h[m].Get(ctx, kk)
 				vpAssert(errors.Is(gerr, ErrKeyNotFound), "destroyed-dmap-key-not-found")
 			}
